@@ -11,13 +11,16 @@ pub mod l4 {
       relation r0(i64, i64);
       relation r1(i64, i64);
       relation r2(i64);
-      lattice r3(i64, Option<i64>);
+      lattice r3(i64, Set<i64>);
       lattice r4(i64, i64, Dual<i64>);
-      r3(v0, None) <-- r1(v0, v0);
-      r3(v0, Some((*v0))) <-- r3(v0, v1), r2(v0);
-      r4(v1, v1, Dual((*v1))) <-- r0(v0, v1) if ((*v0) < 5);
-      r3(v0, Some((*v1))) <-- r0(1, v0), r1(v1, v2);
-      r2(((*v0) + 1)) <-- r0(2, v0), if ((*v0) < 6);
+      r3(v0, Set::singleton((*v1))) <-- r0(v0, v1);
+      r3(v1, v2) <-- r3(v0, v2), r0(v0, v1);
+      r3(v0, Set::singleton((*v0))) <-- r0(v0, 0);
+      r4(v0, 0, Dual((*v0))) <-- r2(v0);
+      r4(v0, v1, Dual(((v2.0) + 0))) <-- r4(v0, v1, v2) if ((*v1) < 4), r0(v0, 3);
+      r4(v2, v0, Dual(((v1.0) + 2))) <-- r4(2, v0, v1), r4(v2, v0, v3);
+      r2(v0) <-- r2(v0) if ((*v0) < 3);
+      r3(1, Set::singleton(1)) <-- r0(1, v0), r4(v1, v2, v3);
    }
    pub struct Inst { p: Prog, pool: Option<ascent::rayon::ThreadPool> }
    pub fn make(pool: Option<usize>) -> Box<dyn Driver> {
@@ -31,13 +34,14 @@ pub mod l4 {
          0 => { let v: Vec<(i64,i64,)> = parse_rows(rows)?; if append { self.p.r0.extend(v) } else { self.p.r0 = v } },
          1 => { let v: Vec<(i64,i64,)> = parse_rows(rows)?; if append { self.p.r1.extend(v) } else { self.p.r1 = v } },
          2 => { let v: Vec<(i64,)> = parse_rows(rows)?; if append { self.p.r2.extend(v) } else { self.p.r2 = v } },
-         3 => { let v: Vec<(i64,Option<i64>,)> = parse_rows(rows)?; if append { self.p.r3.extend(v) } else { self.p.r3 = v } },
+         3 => { let v: Vec<(i64,Set<i64>,)> = parse_rows(rows)?; if append { self.p.r3.extend(v) } else { self.p.r3 = v } },
          4 => { let v: Vec<(i64,i64,Dual<i64>,)> = parse_rows(rows)?; if append { self.p.r4.extend(v) } else { self.p.r4 = v } },
             _ => return None,
          }
          Some(())
       }
       fn run(&mut self) { match &self.pool { Some(pl) => { let p = &mut self.p; pl.install(|| p.run()) }, None => self.p.run() } }
+      fn run_here(&mut self) { self.p.run() }
       fn run_timeout(&mut self, k: usize) -> Option<bool> { let _ = k; None }
       fn dump(&self) -> String { vec![dump_rel(0, self.p.r0.iter().map(Row::render).collect()), dump_rel(1, self.p.r1.iter().map(Row::render).collect()), dump_rel(2, self.p.r2.iter().map(Row::render).collect()), dump_rel(3, self.p.r3.iter().map(Row::render).collect()), dump_rel(4, self.p.r4.iter().map(Row::render).collect())].join(" | ") }
       fn iters(&self) -> String { format!("iters {}", self.p.scc_iters.iter().map(|x| x.to_string()).collect::<Vec<_>>().join(" ")) }
@@ -56,16 +60,15 @@ pub mod l12 {
       relation r1(i64, i64, i64);
       relation r2(i64);
       relation r3(i64, i64);
-      lattice r4(Option<i64>);
-      lattice r5(Set<i64>);
-      r4(Some(0)) <-- r2(1);
-      r4(v0) <-- r4(v0), r1(0, v1, 0) if ((*v1) < 5);
-      r4(None) <-- r4(v0), r4(v1);
-      r5(Set::singleton(2)) <-- r2(v0) if ((*v0) < 4);
-      r5(v0) <-- r5(v0), r3(v1, v1);
-      r1(2, 3, 3) <-- r5(v0), r4(v1);
-      r1(2, 1, 1) <-- r4(v0);
-      r5(Set::singleton(3)) <-- r4(v0);
+      lattice r4(Dual<i64>);
+      lattice r5(Dual<i64>);
+      r4(Dual(0)) <-- r2(1);
+      r4(Dual(((v0.0) + 0))) <-- r4(v0), r3(v1, v2);
+      r5(Dual((*v0))) <-- r0(v0);
+      r5(Dual(2)) <-- r5(v0), r5(v1);
+      r1(v0, v0, v0) <-- r2(v0);
+      r1(1, 3, 1) <-- r4(v0);
+      r5(Dual(((v0.0) + 3))) <-- r4(v0);
    }
    pub struct Inst { p: Prog, pool: Option<ascent::rayon::ThreadPool> }
    pub fn make(pool: Option<usize>) -> Box<dyn Driver> {
@@ -80,13 +83,14 @@ pub mod l12 {
          1 => { let v: Vec<(i64,i64,i64,)> = parse_rows(rows)?; if append { self.p.r1.extend(v) } else { self.p.r1 = v } },
          2 => { let v: Vec<(i64,)> = parse_rows(rows)?; if append { self.p.r2.extend(v) } else { self.p.r2 = v } },
          3 => { let v: Vec<(i64,i64,)> = parse_rows(rows)?; if append { self.p.r3.extend(v) } else { self.p.r3 = v } },
-         4 => { let v: Vec<(Option<i64>,)> = parse_rows(rows)?; if append { self.p.r4.extend(v) } else { self.p.r4 = v } },
-         5 => { let v: Vec<(Set<i64>,)> = parse_rows(rows)?; if append { self.p.r5.extend(v) } else { self.p.r5 = v } },
+         4 => { let v: Vec<(Dual<i64>,)> = parse_rows(rows)?; if append { self.p.r4.extend(v) } else { self.p.r4 = v } },
+         5 => { let v: Vec<(Dual<i64>,)> = parse_rows(rows)?; if append { self.p.r5.extend(v) } else { self.p.r5 = v } },
             _ => return None,
          }
          Some(())
       }
       fn run(&mut self) { match &self.pool { Some(pl) => { let p = &mut self.p; pl.install(|| p.run()) }, None => self.p.run() } }
+      fn run_here(&mut self) { self.p.run() }
       fn run_timeout(&mut self, k: usize) -> Option<bool> { let _ = k; None }
       fn dump(&self) -> String { vec![dump_rel(0, self.p.r0.iter().map(Row::render).collect()), dump_rel(1, self.p.r1.iter().map(Row::render).collect()), dump_rel(2, self.p.r2.iter().map(Row::render).collect()), dump_rel(3, self.p.r3.iter().map(Row::render).collect()), dump_rel(4, self.p.r4.iter().map(Row::render).collect()), dump_rel(5, self.p.r5.iter().map(Row::render).collect())].join(" | ") }
       fn iters(&self) -> String { format!("iters {}", self.p.scc_iters.iter().map(|x| x.to_string()).collect::<Vec<_>>().join(" ")) }
